@@ -485,6 +485,8 @@ type checker struct {
 	bk    *book
 	dbgMu sync.Mutex
 	dbg   map[string]int // outcome dump for debugging (C20_DEBUG_OUTCOMES=file)
+	qs    []*Q  // Part Q query family (for minimisation)
+	small []Doc // Part Q documents occupying at most 4 internal documents, smallest first
 	// searches in flight, for the hang watchdog
 	flight sync.Map // *inflight -> struct{}
 }
@@ -691,7 +693,9 @@ func (ck *checker) evalQ(c *corpus, b built, q *Q, score string, want []Tri) {
 				"query_text": q.String(), "score": score, "expected_hit": want[i] == Yes, "observed_hit": got[id],
 				"how": "index the one document under the mapping of props/c20.Mapping(nested) (items, items.subs, tags mapped nested; keyword fields) and run the query"}
 		} else {
-			class += "+only-with-neighbours"
+			if class != classAdvance {
+				class += "+only-with-neighbours"
+			}
 			rep = where()
 			rep["parent"] = id
 			rep["expected_hit"] = want[i] == Yes
@@ -750,6 +754,20 @@ func partQ(r *mc.Run, ck *checker) {
 	for _, q := range qs {
 		q.prep()
 	}
+	ck.qs = qs
+	for _, f := range fams {
+		for _, d := range f.docs {
+			if d.size() <= 4 {
+				ck.small = append(ck.small, d)
+			}
+		}
+	}
+	sort.SliceStable(ck.small, func(i, j int) bool {
+		if ck.small[i].size() != ck.small[j].size() {
+			return ck.small[i].size() < ck.small[j].size()
+		}
+		return ck.small[i].String() < ck.small[j].String()
+	})
 	per := 120
 	var corpora []*corpus
 	ndocs := 0
@@ -1354,6 +1372,7 @@ func Run(r *mc.Run) {
 		partHDisk(r, ck, states)
 		lap("part_H_disk")
 	}
+	ck.minimiseAdvance()
 	ck.bk.flush(r)
 	if ck.dbg != nil {
 		var ks []string
@@ -1380,4 +1399,74 @@ func bxKeys(m map[string]bool) []string {
 	}
 	sort.Strings(k)
 	return k
+}
+
+// minimiseAdvance replaces the example of classAdvance (found inside a multi-document batch,
+// whose internal order bleve does not fix) by a deterministic one: two parents indexed by two
+// calls, the smallest query of that shape and the smallest pair of documents for which the
+// answer is neither the reference's nor the raw-id model's.
+func (ck *checker) minimiseAdvance() {
+	ck.bk.mu.Lock()
+	_, seen := ck.bk.m[classAdvance]
+	ck.bk.mu.Unlock()
+	if !seen {
+		return
+	}
+	var cand []*Q
+	for _, q := range ck.qs {
+		if advanceShape(q) {
+			cand = append(cand, q)
+		}
+	}
+	sort.SliceStable(cand, func(i, j int) bool {
+		a, b := cand[i], cand[j]
+		if a.nodes() != b.nodes() {
+			return a.nodes() < b.nodes()
+		}
+		if len(a.String()) != len(b.String()) {
+			return len(a.String()) < len(b.String())
+		}
+		return a.String() < b.String()
+	})
+	if len(cand) > 12 {
+		cand = cand[:12]
+	}
+	for _, q := range cand {
+		for _, b := range ck.small {
+			wb := Expect(q, b.tree(), true)
+			if wb == Either {
+				continue
+			}
+			for _, a := range ck.small {
+				if ck.r.Expired() {
+					return
+				}
+				idx := newMem(true)
+				chk(idx.Index("a", a.Data()))
+				chk(idx.Index("b", b.Data()))
+				rep := func() map[string]any {
+					return map[string]any{"mapping": "nested", "docs_in_index_order": []any{map[string]any{"a": a.Data()}, map[string]any{"b": b.Data()}},
+						"query": queryJSON(q), "query_text": q.String(), "score": "", "expected_hit_b": wb == Yes,
+						"how": "index a, then b (one Index call each) under props/c20.Mapping(true); run the query"}
+				}
+				got, _, ok := ck.search(idx, true, "two-documents", q, 5+a.size()+b.size(), "", rep)
+				idx.Close()
+				if !ok || got["b"] == (wb == Yes) {
+					continue
+				}
+				if ra := rawPredict(q, b.tree()); !ra.ok || ra.parentHit == got["b"] {
+					continue
+				}
+				dir := "missing from"
+				if got["b"] {
+					dir = "wrongly in"
+				}
+				ck.bk.mu.Lock()
+				ck.bk.m[classAdvance] = &example{replay: rep(),
+					detail: fmt.Sprintf("[nested mapping] index a=%s, then b=%s; %s: parent b is %s the hits (reference: %v; raw-id combination also says %v)", a, b, q, dir, wb, wb)}
+				ck.bk.mu.Unlock()
+				return
+			}
+		}
+	}
 }
